@@ -31,8 +31,16 @@ def flag_by_type(fn, objnode):
     accessed object is a parameter / local whose type is the element type of a flag container, a
     type no other atomic member of the pool has"""
     o = strip(objnode)
-    while isinstance(o, dict) and o.get("k") == "unop" and o.get("op") == "*":
-        o = strip(o["e"])
+    via_iter = False
+    while isinstance(o, dict):
+        if o.get("k") == "unop" and o.get("op") == "*":
+            o = strip(o["e"])
+        elif o.get("k") == "call" and (o.get("bn") or "").split("::")[-1] in ("operator->", "operator*") \
+                and (o.get("obj") is not None or o.get("a")):
+            o = strip(o["obj"] if o.get("obj") is not None else o["a"][0])      # iterator dereference
+            via_iter = True
+        else:
+            break
     if not (isinstance(o, dict) and o.get("k") == "ref" and o.get("rk") in ("param", "local")):
         return None
     t = _norm_type(fn.type(o.get("vt", o.get("t"))))
@@ -62,6 +70,11 @@ def flag_by_type(fn, objnode):
                 others.add(ft)
     if t in elems and t not in others:
         return elems[t]
+    if via_iter and "__normal_iterator<" in t:
+        # an iterator into the flag container: its type names the element type
+        hit = [f for el, f in elems.items() if ("__normal_iterator<" + el) in t and el not in others]
+        if hit:
+            return hit[0]
     return None
 
 
